@@ -362,7 +362,7 @@ func (fr *Frame) applyContract(callee *ssa.Function, sp *spec.FuncSpec, args []V
 	}
 	// a callee that can perform declared effects appends its events to the (flattened) trace: the trace keeps its
 	// prefix and may grow; what the callee's contract says about tlen()/evIs(...) then describes that segment
-	if !sp.Pure && !sp.Effect && vc.W.MayEffect(callee) {
+	if !sp.Pure && vc.W.BodyMayEffect(callee) {
 		fr.havocTrace(st)
 	}
 	// results
@@ -403,6 +403,9 @@ func (fr *Frame) applyContract(callee *ssa.Function, sp *spec.FuncSpec, args []V
 	env.resultNames = resultNames(callee, sp)
 	env.st = st
 	for _, e := range sp.Ensures {
+		if e.Local {
+			continue // about the callee's own variables: not part of what callers may assume
+		}
 		g := env.compileBool(e.Expr)
 		vc.fact(implies(cond, g))
 	}
@@ -577,6 +580,9 @@ func (fr *Frame) applyIfaceContract(key string, sp *spec.FuncSpec, c *ssa.CallCo
 		}
 	}
 	for _, e := range sp.Ensures {
+		if e.Local {
+			continue // about the callee's own variables: not part of what callers may assume
+		}
 		vc.fact(implies(cond, env.compileBool(e.Expr)))
 	}
 	if sp.Effect {
@@ -1536,6 +1542,9 @@ func (fr *Frame) linkFuncValue(f *ssa.Function) {
 	env.resultNames = resultNames(f, sp)
 	body := []string{fmt.Sprintf("(= %s %s)", dyn, app)}
 	for _, en := range sp.Ensures {
+		if en.Local {
+			continue // about the callee's own variables: not part of what callers may assume
+		}
 		body = append(body, env.compileBool(en.Expr))
 	}
 	vc.fact(fmt.Sprintf("(forall (%s) (! (and %s) :pattern (%s) :pattern (%s)))", strings.Join(decls, " "), strings.Join(body, " "), dyn, app))
